@@ -148,6 +148,11 @@ func c12Case(ctx *genCtx, ts *tape.Set, dir string) *genResult {
 	filesA := w.Render()
 	dirA := filepath.Join(dir, "A")
 	writeWorld(dirA, filesA)
+	if probs := userSourceProblems(dirA, w, "./p"); len(probs) > 0 {
+		res.probe("world.invalid_discarded")
+		res.Sample["invalid_world"] = probs
+		return res
+	}
 	rA := runGoderive(ctx.bins.inst, dirA, []string{"./p"}, &Plan{MapMode: "identity"}, 0)
 	res.count(rA)
 	outA := derivedFiles(dirA)["p/derived.gen.go"]
